@@ -1,9 +1,9 @@
 #!/bin/bash
-# round 11: the changes missed on the first run, re-run with the strengthened checks (L03-Y stays undetected: DESIGN 16)
+# round 11: the changes missed on the first run, re-run with the strengthened checks
 OUT=/verif/.work/matrix_fix11.txt
 : > $OUT
 export MIRROR=/tmp/mutwork2
-for n in L02-X L04-X L04-Y; do
+for n in ${LIST:-L02-X L04-X L04-Y L03-Y}; do
   d=/verif/seeded/$n; p=$(head -1 $d/author_notes.md | grep -oE 'C[0-9]{2}' | head -1)
   echo "== $n ($p)" >> $OUT
   /verif/tools/mirror_mutant.sh $d/patch.diff $p >> $OUT 2>&1
